@@ -106,7 +106,18 @@ def main():
         return t
 
     def snapshot(t, is_set):
-        return [repr(k) for k in t.keys()] if is_set else [(repr(k), repr(v)) for k, v in t.items()]
+        """what "the container is unchanged" is read from: the entries, and - for a tree - truth value, whether its
+        state is the empty state, and the verdict of _check() (a rejected first insert must leave an *empty tree*, not
+        a tree holding an empty leaf)"""
+        items = [repr(k) for k in t.keys()] if is_set else [(repr(k), repr(v)) for k, v in t.items()]
+        if hasattr(t, '_check'):
+            try:
+                t._check()
+                ck_ = 'ok'
+            except Exception as e:
+                ck_ = 'check: %s' % str(e)[:40]
+            return [items, bool(t), t.__getstate__() is None, ck_]
+        return items
 
     def classify_key(x, m, t, is_set):
         """what is stored for the offered key x"""
@@ -213,8 +224,8 @@ def main():
                         entries.append(('update_oo' + sk, (lambda s_: (lambda t: t.update(s_)))(src)))
                 if hasattr(cls, 'insert'):
                     entries.append(('insert', lambda t: t.insert(newk, x)))
-                for name, f in entries:
-                    t = fresh(cls, False)
+                for name, f in entries + [('empty:' + n_, f_) for n_, f_ in entries if f_ is not None and n_ != 'replace']:
+                    t = cls() if name.startswith('empty:') else fresh(cls, False)
                     before = snapshot(t, False)
                     try:
                         if name == 'ctor':
